@@ -262,7 +262,9 @@ def run_property(prop, tier="quick", seed=0, jobs=None, rebaseline=False, only=N
     jobs = jobs or min(16, os.cpu_count() or 4)
     per_fn_budget = (240.0 if tier == "quick" else 1200.0) * stretch
     tasks = [("fn", (k, timeout_s, per_fn_budget - 30), k) for k in keys] + [("static", st, f"{st[0]}#{st[1]}") for st in statics]
-    results = run_tasks(tasks, jobs, per_fn_budget)
+    # the function's own deadline (per_fn_budget - 30 s) stops it from STARTING obligations; one that is already running
+    # may use its whole chain of provers: the hard kill comes after that, so that finished results are never lost
+    results = run_tasks(tasks, jobs, per_fn_budget + 9 * timeout_s + 40)
 
     crashes = [r for r in results if r.get("crash")]
     g = group(results)
